@@ -534,6 +534,13 @@ def check_target_test(prog, rep, f, entry, k, L, gt, src, vals, px):
                 'one of them, whatever their order: the test looks at one position found by a sorted-order lookup (%s), which is '
                 'right for ascending lists only' % show(Rat.atom(positional[0]), 80))
         return
+    tolerant = [x for lp in k.loops for nm_, (ph_, po_) in getattr(lp, 'carried', {}).items() if isinstance(po_, Rat)
+                for x in walk_atoms(po_) if isinstance(x, App) and x.name.split('.')[-1] in ('isclose', 'allclose')]
+    tolerant += [a for a in atoms if isinstance(a, App) and a.name.split('.')[-1] in ('isclose', 'allclose')]
+    if tolerant:
+        rep.add('X6', f, entry, 'target test', L.node.lineno, False, 'with explicit target values a cell is a target iff it EQUALS one of '
+                'them: %s accepts every value within a tolerance' % show(Rat.atom(tolerant[0]), 80))
+        return
     try:
         if len(n_at) != 1 or len(fin) > 1 or len(flags) > 1:
             raise CannotEvaluate('quantities: len %d isfinite %d flags %d' % (len(n_at), len(fin), len(flags)))
@@ -576,7 +583,8 @@ def check_target_test(prog, rep, f, entry, k, L, gt, src, vals, px):
                                                                     getattr(getattr(Lv, 'iterable', None), 'name', None) == vals)))
                 tab = []
                 for prev in (0, 1):
-                    for vv, ev in ((5, 5), (5, 7), (0, 0)):
+                    # (5, 5 + 10^-40): a value next to the cell but not equal to it - closer than any tolerance
+                    for vv, ev in ((5, 5), (5, 7), (0, 0), (5, Fraction(5) + Fraction(1, 10 ** 40))):
                         r = None
                         if e:
                             env_ = {P: Fraction(prev), v: Fraction(vv), e[0]: Fraction(ev)}
